@@ -1,12 +1,19 @@
 (* C17 — All allocation entry points are interchangeable.
    PARTIAL: hint independence (typed fast paths vs generic layout path) is a corollary of the
    C11 refinement over the regenerated code, and the trait-object commit equals the typed one;
-   try_ vs panicking twins and Bump vs BumpScope vs references share one generic function in the
-   source (ErrorBehavior / forward_methods!) and are tied by the correspondence runs, which
-   execute the same histories through all of these entry points against one model function. *)
+   try_ vs panicking twins and the forwarding layers (forward_methods!, the impls of the allocator
+   traits for references, trait objects, WithoutDealloc, WithoutShrink) are checked statically:
+   tools/c17.py regenerates, from the current source, the table of all X / try_X pairs (bodies as
+   normalised token lists) and of all functions of the forwarding containers; TwinSpec.v states
+   the rules (twins equal up to what the error behaviour may introduce; a forward calls the
+   function of its own name with its own parameters in order), and the two theorems below decide
+   them for the regenerated tables.  The correspondence runs execute the same histories through
+   these entry points against one model function. *)
 From Coq Require Import ZArith List.
 From BS Require Import Word BumpSpec BumpRefine ChunkSpec Arena ArenaInv ArenaExt.
-From BS.gen Require Bumping.
+From BS.gen Require Bumping Twins.
+From BS Require Import TwinSpec.
+From Coq Require Import String.
 Import ListNotations.
 Open Scope Z_scope.
 
@@ -37,7 +44,40 @@ Theorem C17_dyn_commit_position_equals_typed :
   commit_pos c m ea true x = commit_pos c m ea false x.
 Proof. exact commit_pos_dyn_eq. Qed.
 
+(* every X / try_X pair of the CURRENT source has the same body up to the error behaviour *)
+Theorem C17_twins_table_ok : Twins_ok Twins.twins = true.
+Proof. vm_compute. reflexivity. Qed.
+
+(* every function of a forwarding container of the CURRENT source forwards to the function of its
+   own name with its own parameters in their order (or is one of the listed exceptions) *)
+Theorem C17_forwarding_table_ok : Forwards_ok Twins.forwards = true.
+Proof. vm_compute. reflexivity. Qed.
+
+(* what a passing table means *)
+Theorem C17_twins_ok_meaning :
+  forall T, Twins_ok T = true ->
+  forall r, In r T -> toks_eq T (tw_plain r) (tw_try r) = true /\ tw_pp r = tw_pt r.
+Proof. exact Twins_ok_spec. Qed.
+
+Theorem C17_forwards_ok_meaning :
+  forall F, Forwards_ok F = true ->
+  forall f path callee args wrapped, In f F -> fw_kind f = Forward path callee args wrapped ->
+  (callee = fw_name f \/ (path = "for_trait_object::"%string /\ callee = strip_try (fw_name f))) /\
+  (wrapped = true -> path = "for_trait_object::"%string) /\
+  ((exists ps r as_, fw_params f = "self"%string :: ps /\ args = r :: as_ /\ In r receivers /\ as_ = ps) \/ args = fw_params f).
+Proof. exact Forwards_ok_spec. Qed.
+
+(* the tables are not empty *)
+Theorem C17_tables_are_populated :
+  (200 <= List.length Twins.twins)%nat /\ (150 <= List.length Twins.forwards)%nat.
+Proof. vm_compute. split; repeat constructor. Qed.
+
 Print Assumptions C17_hints_do_not_matter_up.
 Print Assumptions C17_hints_do_not_matter_down.
 Print Assumptions C17_dyn_commit_equals_typed.
 Print Assumptions C17_dyn_commit_position_equals_typed.
+Print Assumptions C17_twins_table_ok.
+Print Assumptions C17_forwarding_table_ok.
+Print Assumptions C17_twins_ok_meaning.
+Print Assumptions C17_forwards_ok_meaning.
+Print Assumptions C17_tables_are_populated.
